@@ -11,9 +11,10 @@ result line per case to a result file (never stdout).
 
 Oracle (only what the property states)
   * value == mc.refsem value wherever the reference is defined (division/modulo by zero: skipped in C and counted);
-  * the harness process's stdout (a regular file; its offset is sampled after every case) stays EMPTY;
+  * the harness process's stdout stays EMPTY (stdout is a regular file, fully buffered; the pending byte count is sampled
+    after every case and the file size must equal the sum attributed to cases);
   * no signal (sigsetjmp/siglongjmp around every call: SIGFPE/SIGSEGV/SIGABRT/... is that case's outcome), no exit()
-    (op_semantics.c/bn.c are compiled with -Dexit=c04_exit), no run-away loop (CPU-time timer per function);
+    (op_semantics.c/bn.c are compiled with -Dexit=c04_exit), no run-away loop (periodic CPU-time tick: two ticks inside one call end it);
   * an accepted expression whose C does not compile/link is a violation (gcc's diagnostics name the function);
   * a translation that raises NotImplementedError is "not accepted" (counted); any other exception is counted as
     `translator_raises` and reported as a finding candidate, but is not a violation (the property only constrains
@@ -411,7 +412,7 @@ def nested(w):
         for ctag, cspec in ctx(ispec):
             ids = spec_ids(cspec)
             lists = [small(iw) if len(ids) > 2 else vals(iw) for _, iw in ids]
-            out.append(F("%s(%s)" % (ctag, itag), wc, "any", w, cspec, lists=lists, inner=ispec))
+            out.append(F("%s(%s)" % (ctag, itag), wc, fam_of(ctag), w, cspec, lists=lists, inner=[itag, ctag]))
     return out
 
 
@@ -470,6 +471,7 @@ def ctype(w):
 
 DRIVER_HEAD = r"""
 #include <stdio.h>
+#include <stdio_ext.h>
 #include <stdlib.h>
 #include <string.h>
 #include <signal.h>
@@ -484,6 +486,7 @@ DRIVER_HEAD = r"""
 static sigjmp_buf c04_env;
 static volatile sig_atomic_t c04_armed;
 static volatile int c04_idx;
+static volatile long c04_seq, c04_seen;
 static FILE *c04_res;
 
 void c04_exit(int code)
@@ -494,8 +497,14 @@ void c04_exit(int code)
 
 static void c04_sig(int signo)
 {
+	if (signo == SIGVTALRM) {
+		/* periodic CPU-time tick: the second one inside the same protected call ends it */
+		if (!c04_armed) { c04_seen = -1; return; }
+		if (c04_seen == c04_seq) siglongjmp(c04_env, signo);
+		c04_seen = c04_seq;
+		return;
+	}
 	if (c04_armed) siglongjmp(c04_env, signo);
-	if (signo == SIGVTALRM) return;
 	/* a fault outside the protected call: the call damaged its caller's memory */
 	fprintf(c04_res, "\n%d !C%d\n", c04_idx, signo);
 	fflush(c04_res);
@@ -533,18 +542,15 @@ DRIVER_MAIN = r"""
 static void c04_run(const struct c04_desc *d)
 {
 	static uint64_t in[12], out[4];
-	static struct itimerval tv, off;
-	static off_t last, cur;
+	static size_t pend;
 	static int i0, i1, i2, idx, timeouts, n0, n1, n2, rc;
 	FILE *res = c04_res;
 
-	tv.it_value.tv_usec = C04_CPU_USEC;
 	n0 = d->nops > 0 ? d->n0 : 1;
 	n1 = d->nops > 1 ? d->n1 : 1;
 	n2 = d->nops > 2 ? d->n2 : 1;
 	idx = 0;
 	timeouts = 0;
-	last = lseek(1, 0, SEEK_CUR);
 	for (i0 = 0; i0 < n0; i0++) for (i1 = 0; i1 < n1; i1++) for (i2 = 0; i2 < n2; i2++, idx++) {
 		if (d->skip && d->skip[idx]) continue;
 		if (timeouts >= C04_MAX_TIMEOUTS) { fprintf(res, "%d !N\n", idx); continue; }
@@ -554,13 +560,12 @@ static void c04_run(const struct c04_desc *d)
 		if (d->nops > 2) memcpy(in + 8, d->l2[i2], 32);
 		out[0] = out[1] = out[2] = out[3] = 0;
 		c04_idx = idx;
-		rc = sigsetjmp(c04_env, 1);
+		c04_seq++;
+		rc = sigsetjmp(c04_env, 0);
 		if (rc == 0) {
-			setitimer(ITIMER_VIRTUAL, &tv, NULL);
 			c04_armed = 1;
 			d->fn(in, out);
 			c04_armed = 0;
-			setitimer(ITIMER_VIRTUAL, &off, NULL);
 			if (d->wide)
 				fprintf(res, "%d =%llx%016llx%016llx%016llx", idx, (unsigned long long)out[3],
 					(unsigned long long)out[2], (unsigned long long)out[1], (unsigned long long)out[0]);
@@ -568,14 +573,12 @@ static void c04_run(const struct c04_desc *d)
 				fprintf(res, "%d =%llx", idx, (unsigned long long)out[0]);
 		} else {
 			c04_armed = 0;
-			setitimer(ITIMER_VIRTUAL, &off, NULL);
 			if (rc >= 1000) fprintf(res, "%d !X%d", idx, rc - 1000);
 			else fprintf(res, "%d !S%d", idx, rc);
 			if (rc == SIGVTALRM) timeouts++;
 		}
-		fflush(stdout);
-		cur = lseek(1, 0, SEEK_CUR);
-		if (cur != last) { fprintf(res, " O%ld", (long)(cur - last)); last = cur; }
+		pend = __fpending(stdout);
+		if (pend) { fflush(stdout); fprintf(res, " O%lu", (unsigned long)pend); }
 		fputc('\n', res);
 	}
 }
@@ -595,6 +598,7 @@ int main(int argc, char **argv)
 	if (progress == MAP_FAILED) return 95;
 	memset(&sa, 0, sizeof(sa));
 	sa.sa_handler = c04_sig;
+	sa.sa_flags = SA_NODEFER;
 	sigemptyset(&sa.sa_mask);
 
 	/* the functions run in a child; when a call damages its caller's memory and the child dies, only the remaining
@@ -609,7 +613,13 @@ int main(int argc, char **argv)
 		if (pid < 0) return 96;
 		if (pid == 0) {
 			prctl(PR_SET_PDEATHSIG, SIGKILL);
+			struct itimerval tv;
+			static char obuf[1 << 16];
+			setvbuf(stdout, obuf, _IOFBF, sizeof(obuf));
 			for (s = 0; s < sizeof(sigs) / sizeof(sigs[0]); s++) sigaction(sigs[s], &sa, NULL);
+			memset(&tv, 0, sizeof(tv));
+			tv.it_value.tv_usec = tv.it_interval.tv_usec = C04_CPU_USEC;
+			setitimer(ITIMER_VIRTUAL, &tv, NULL);
 			for (j = k; j < n; j++) {
 				*progress = j;
 				fprintf(c04_res, "F %d\n", c04_table[j].id);
@@ -951,10 +961,12 @@ def evaluate(funcs, shadow, rt_objs, workdir, name):
     t2 = time.time()
     c2 = cpu()
 
-    def add(f, sig, what, case, inner):
+    def add(f, sig, what, case, inner, oc="*"):
         case = dict(case, opt=_opt[0])
-        vio.append({"v": violation(sig, what, case), "inner": spec_str(inner) if inner else None, "key": f["key"],
-                    "probe": f["probe"]})
+        vio.append({"v": violation(sig, what, case), "inner": inner, "key": f["key"], "probe": f["probe"], "w": f["w"],
+                    "oc": oc})
+        if inner is None and not f["probe"]:
+            stats["faulty"].append((f["tag"], f["w"], oc))
 
     for k, msg in sorted(rejected.items()):
         f, expr, ids, tuples, exp, ctext = meta[k]
@@ -967,10 +979,10 @@ def evaluate(funcs, shadow, rt_objs, workdir, name):
     for exe in exes:
         out, so_size, ok, rc = run_exe(exe, workdir)
         results.update(out)
-        flagged = sum(1 for r in out.values() for c in r.values() if c[2])
-        if (so_size and not flagged) or not ok:
+        flagged = sum(c[2] for r in out.values() for c in r.values())
+        if so_size != flagged or not ok:
             # the driver died or wrote to stdout outside a case: harness-level failure, never silent
-            raise RuntimeError("harness %s: rc=%s completed=%s stdout=%d bytes unattributed" % (exe, rc, ok, so_size))
+            raise RuntimeError("harness %s: rc=%s completed=%s stdout=%d bytes, %d attributed to cases" % (exe, rc, ok, so_size, flagged))
 
     t3 = time.time()
     c3 = cpu()
@@ -1042,17 +1054,13 @@ def evaluate(funcs, shadow, rt_objs, workdir, name):
                 n = per_sig.get(sig, 0)
                 per_sig[sig] = n + 1
                 if n >= MAX_PER_SIG:
+                    if f["inner"] is None and not f["probe"] and n == MAX_PER_SIG:
+                        stats["faulty"].append((f["tag"], f["w"], oc))
                     continue
                 what = "%s with %s: %s; C: `%s`" % (
                     f["key"], ", ".join("%s=0x%x" % (i.name, v) for i, v in zip(ids, t)) or "no operand", text, ctext)
                 add(f, sig, what, {"spec": f["spec"], "vals": list(t), "tag": f["tag"], "wc": f["wc"], "fam": f["fam"],
-                                   "w": f["w"]}, f["inner"])
-        if per_sig and f["inner"] is None:
-            stats["faulty"].append(f["key"])
-    for k in rejected:
-        f = meta[k][0]
-        if f["inner"] is None:
-            stats["faulty"].append(f["key"])
+                                   "w": f["w"]}, f["inner"], oc)
     return vio, stats
 
 
@@ -1110,21 +1118,26 @@ def run(ctx):
                 d["n"] += ent["n"]
                 d["first"] = min(d["first"], ent["first"])
         outcomes |= set(st["outcomes"])
-        faulty |= set(st["faulty"])
+        faulty |= set(tuple(x) for x in st["faulty"])
         samples += st["samples"]
         allv += vio
 
     probe_info = {}
     nested_skipped = 0
+    faulty_ops = set((t, w) for t, w, _ in faulty)
     kept = {}
     for rec in allv:
         v = rec["v"]
         if rec["probe"]:
             probe_info.setdefault(v["sig"], v["what"])
             continue
-        if rec["inner"] is not None and rec["inner"] in faulty:
-            nested_skipped += 1          # the inner expression already fails on its own: reported there
-            continue
+        if rec["inner"] is not None:
+            # context(inner): reported only when neither the inner operator (any operands) nor the context operator
+            # (same operand class) already fails on plain identifiers at this width - those are reported on their own
+            itag, ctag = rec["inner"]
+            if (itag, rec["w"]) in faulty_ops or (ctag, rec["w"], rec["oc"]) in faulty or (ctag, rec["w"], "*") in faulty:
+                nested_skipped += 1
+                continue
         lst = kept.setdefault(v["sig"], [])
         if len(lst) < MAX_PER_SIG:
             lst.append(v)
